@@ -31,6 +31,11 @@ CORPUS = [
     ({"same1": "v1", "same2": "v2", "same3": "v3", "same4": "v4", "same5": "v5", "old": "x"},
      {"same1": "v1", "same2": "v2", "same3": "v3", "same4": "v4", "same5": "v5", "new": "y"}),
     ([{"u": "a", "v": "b", "w": "c", "x": "d", "gone": 1}, ["s1", "s2"]], [{"u": "a", "v": "b", "w": "c", "x": "d", "come": 2}, ["s1", "s3"]]),
+    # every key renamed (pairing decided by the matcher from partially tightened string edits) while a sibling entry
+    # undergoes the same string change as one candidate pairing: sensitive to anything remembered between comparisons
+    ({"x": {"a": "ceedcfehafa", "b": "adedcfehaca"}, "y": "ceedcfehafa"}, {"x": {"c": "adedcfehaca", "d": "adbccfahaca"}, "y": "adbccfahaca"}),
+    ({"m": {"p": "the quick brown fox", "q": "jumps over the lazy"}, "n": ["the quick brown fox", "jumps over the lazy"]},
+     {"m": {"r": "jumps over the hazy", "s": "the quick brawn fix"}, "n": ["the quick brawn fix", "jumps over the hazy"]}),
 ]
 FLAGSETS = [[], ['-k'], ['--dict-strategy', 'match'], ['-k', '-l'], ['-e', '-k'], ['-d'], ['-k', '-j']]
 
@@ -88,7 +93,7 @@ def _purity_job(job):
         formatter = graphtage.get_filetype(mime_type={'xml': 'application/xml', 'plist': 'application/x-plist', 'csv': 'text/csv',
                                                       'json': 'application/json'}[fmt]).get_default_formatter()
         outs = []
-        for _ in range(2):
+        for _ in range(3):
             d = ta.diff(tb)
             buf = gt._KeepOpen()
             formatter.print(Printer(buf, ansi_color=False, quiet=True), d)
@@ -98,8 +103,16 @@ def _purity_job(job):
         elif gt.deep_state(ta) != da or gt.deep_state(tb) != db:
             fails.append({'what': f"diff()/printing replaced, re-classed or re-annotated node objects of an input tree "
                                   f"(identity-level state differs): {a!r} -> {b!r}", 'class': 'c07-input-mutated:identity'})
-        if outs[0] != outs[1]:
-            fails.append({'what': f"two in-process diffs of the same trees differ: {a!r} -> {b!r}", 'class': 'c07-repeat-differs'})
+        if outs[0] != outs[1] or outs[0] != outs[2]:
+            fails.append({'what': f"repeated in-process diffs of the same trees differ: {a!r} -> {b!r}", 'class': 'c07-repeat-differs'})
+        # fresh trees of the same documents, after the comparisons above: nothing may be remembered between comparisons
+        (ta2, _), (tb2, _) = gt.build_any(a, opt), gt.build_any(b, opt)
+        d = ta2.diff(tb2)
+        buf = gt._KeepOpen()
+        formatter.print(Printer(buf, ansi_color=False, quiet=True), d)
+        if (buf.getvalue(), d.edited_cost()) != outs[0]:
+            fails.append({'what': f"a comparison of freshly built trees of the same documents differs from the first one in this process: "
+                                  f"{a!r} -> {b!r}", 'class': 'c07-history-dependent'})
     except Exception as ex:
         fails.append({'what': f"{type(ex).__name__}: {ex} [{a!r} -> {b!r}]", 'class': f'c07-exception:{type(ex).__name__}'})
     for f in fails:
